@@ -2,7 +2,7 @@
    Full-strength statement: C02_statement (Cluster/Statements.v). Proved so far: the theorems below; what is
    not yet proved is decided on every run by the lock-step co-simulation (model = implementation on every
    explored schedule) together with the monitors run on the implementation's own observations. *)
-From RaftV Require Import Cluster.Statements Proofs.RVSpec Proofs.AESpec.
+From RaftV Require Import Cluster.Statements Proofs.RVSpec Proofs.AESpec Proofs.ElectSpec.
 Open Scope N_scope.
 
 (* RequestVote, every voter state x every request *)
@@ -15,3 +15,22 @@ Theorem C02_vote_refused_if_voted_other : forall now n q v,
   rv_granted (snd (h_request_vote now n q)) = false /\ n_vote (fst (h_request_vote now n q)) = Some v.
 Proof. exact rv_already_voted. Qed.
 Print Assumptions C02_vote_refused_if_voted_other.
+
+(* How a node becomes leader, for every node state and every vote reply: only by processing the reply to a REAL vote
+   request (of a term not older than its own) while it is a (pre)candidate and the votes counted for that election -
+   its own and the granted replies, this one included - are a majority of the voters of its configuration ... *)
+Theorem C02_leader_only_with_counted_majority : forall now n rid peer pv q p,
+  n_role n <> Leader -> n_role (l_rv_reply now n rid peer pv q p) = Leader ->
+  pv = false /\ n_term n <= rv_term q /\
+  let n1 := if rvr_granted p then bump_round n rid else n in
+  has_quorum (conf_of n1) (round_count n1 rid) = true /\
+  (n_role n = Candidate \/ n_role n = PreCandidate).
+Proof. exact rv_reply_becomes_leader. Qed.
+Print Assumptions C02_leader_only_with_counted_majority.
+
+(* ... or, in election(), as the only voter of its configuration, and then in a term of its own (fix D21). *)
+Theorem C02_single_voter_election_takes_a_new_term : forall now n,
+  n_role n <> Leader -> n_role (l_election now n) = Leader ->
+  is_single (conf_of n) (n_id n) = true /\ n_term (l_election now n) = n_term n + 1.
+Proof. exact election_becomes_leader. Qed.
+Print Assumptions C02_single_voter_election_takes_a_new_term.
